@@ -85,6 +85,14 @@ def act_to_step(a, rid):
         return {"a": "admin", "op": "remove", "name": "b%d" % a["b"]}
     if k == "strategy":
         return {"a": "admin", "op": "strategy", "s": a["s"]}
+    if k == "add_dup":
+        return {"a": "admin", "op": "add", "name": "b%d" % a["b"], "addr": "http://b%d.backend.test:80" % a["b"], "w": 1}
+    if k == "add_badurl":
+        return {"a": "admin", "op": "add", "name": "b%d" % a["b"], "addr": "http://[::1", "w": 1}
+    if k == "strategy_unknown":
+        return {"a": "admin", "op": "strategy", "s": "fastest"}
+    if k == "remove_absent":
+        return {"a": "admin", "op": "remove", "name": "b%d" % a["b"]}
     raise vlib.FrameworkError("unknown model action %r" % (a,))
 
 
@@ -125,7 +133,7 @@ KEEP = {
     "cfg": ("ev", "id", "cfg"), "tick": ("ev", "n"), "req": ("ev", "id", "client"),
     "dispatch": ("ev", "id", "b"), "reply": ("ev", "id", "status", "kind", "h"),
     "mark": ("ev", "b"), "probe": ("ev", "b", "r"),
-    "admin": ("ev", "op", "name", "w", "s", "status", "items"),
+    "admin": ("ev", "op", "name", "w", "s", "status", "pre", "items"),
     "snap": ("ev", "total", "ok", "failed", "limited", "backends", "health", "list"),
     "held": ("ev", "id"), "stuck": ("ev", "id", "at"), "drift": ("ev",), "skip": ("ev",),
     "setprobe": ("ev",), "setmode": ("ev",), "stopped": ("ev",),
@@ -174,7 +182,7 @@ def segment(trace_path, seg_id):
     return [json.loads(x) for x in idx.get(seg_id, [])]
 
 
-def judge(chk, trace_path, scripts, props, sd, name, extra_sig=None):
+def judge(chk, trace_path, scripts, props, sd, name, extra_sig=None, clauses=None):
     """Run PoolObs over the recorded trace; violations of properties in `props`
     (set of ids) belong to this check."""
     proj = os.path.join(sd, name + ".proj.ndjson")
@@ -186,7 +194,7 @@ def judge(chk, trace_path, scripts, props, sd, name, extra_sig=None):
     cnt = 0
     for v in viols:
         for vv in v["v"]:
-            if vv["prop"] not in props:
+            if vv["prop"] not in props and not (clauses and vv["clause"] in clauses):
                 continue
             sc = by_id.get(v["seg"], {})
             cfg = sc.get("cfg", {})
@@ -201,3 +209,39 @@ def judge(chk, trace_path, scripts, props, sd, name, extra_sig=None):
                               name="%s-%s.ndjson" % (vv["clause"], v["seg"]))
             cnt += 1
     return cnt
+
+
+def run_check(pid, tier, props, plan_list, rule=None, snap=False, extra=None, clauses=None):
+    chk = vlib.Check(pid, tier)
+    sd = vlib.scratch(pid.lower())
+    binp = build_lbsim(sd)
+    total_tr = 0
+    for name, c in plan_list:
+        # M alone, exhaustive: state-based safety clauses
+        r = tlc_cfg("MCPoolM", mcfg_text(c), "m.cfg", workers=vlib.NCPU, timeout=1500)
+        chk.add_tlc("M exhaustive [%s]" % name, r)
+        if r.rc != 0:
+            chk.notes.append("MODEL-CEX in %s" % name)
+            vlib.log("MODEL-CEX (not a verdict) in M config " + name)
+        # every transition of M replayed on the real balancer
+        g = tlc_cfg("MCPool", cfg_text(c), "gen.cfg", workers=8, timeout=1500)
+        scripts, ntr = scripts_from(g, name, snap=snap)
+        total_tr += ntr
+        vlib.log("  plan %s: %d model transitions, %d walks, %d steps" % (name, ntr, len(scripts), sum(len(s["steps"]) for s in scripts)))
+        tp = replay(binp, scripts, sd, name)
+        chk.cov["traces_validated_against_impl"] += len(scripts)
+        for s in scripts:
+            chk.count_case([s["cfg"]["strategy"], len(s["steps"]), s["id"]])
+        judge(chk, tp, scripts, set(props), sd, name, clauses=clauses)
+        if scripts:
+            chk.sample({"plan": name, "script": scripts[0]["id"], "strategy": scripts[0]["cfg"]["strategy"],
+                        "steps": scripts[0]["steps"][:10], "events": segment(tp, scripts[0]["id"])[1:9]}, limit=6)
+    if extra:
+        extra(chk, sd, binp)
+    chk.cov["replayed_model_transitions"] = total_tr
+    chk.cov["exhaustive"] = True
+    chk.cov["rule"] = rule or ("every transition of the TLA+ pool model (strategy x ejected subset x rotation x in-flight vector x "
+                       "window age x passive count) executed on the real LoadBalancer by covering walks; one case = one walk")
+    chk.assumptions += ["scripted RoundTrippers stand in for backends; one tick = 2 s virtual, windows 2k+1 s",
+                        "the admin listing (/v1/backends) is consulted only where the statement leaves a choice"]
+    return chk.finish()
